@@ -1240,7 +1240,28 @@ class _Frame:
                 if g is not None:
                     return self.I.call_function(g, [obj, obj.cls], {}, self_obj=d)
         if name in obj.attrs:
-            return obj.attrs[name]
+            v = obj.attrs[name]
+            if type(v).__name__ == "function":
+                # a Python stand-in placed where the class has a method of that name: keyword arguments spelled with the
+                # REAL parameter names are moved into position (the stand-in's own parameter names are the rule's business)
+                real = self.I.repo.lookup_method(obj.cls, name)
+                if real is not None and not real.is_property():
+                    import inspect as _insp
+
+                    try:
+                        ps = list(_insp.signature(v).parameters.values())
+                    except (TypeError, ValueError):
+                        ps = []
+                    npos = 10**6 if any(p_.kind == p_.VAR_POSITIONAL for p_ in ps) else sum(1 for p_ in ps if p_.kind in (p_.POSITIONAL_ONLY, p_.POSITIONAL_OR_KEYWORD))
+
+                    def _stub(*a, _v=v, _real=real, _npos=npos, **k):
+                        a2, k2 = _Frame._by_position(_real, a, k, not _real.is_static())
+                        if len(a2) <= _npos:
+                            a, k = a2, k2
+                        return _v(*a, **k)
+
+                    return _stub
+            return v
         f = self.I.repo.lookup_method(obj.cls, name)
         if f is not None:
             if f.is_property():
